@@ -337,6 +337,24 @@ def _block(case, r, problem, params, objs, x, y, x0, y0, rho, dt, labels0, reque
         if not close(gotS, S_ref, lam * F_scale, rtol=1e-9):
             k = int(np.argmax(np.abs(np.asarray(gotS) - S_ref)))
             return V("scaled_value_at", f"component {k}: got {gotS[k]!r} reference {S_ref[k]!r}")
+        # ... and its generalised Jacobian: [[lam I + P' H, P' J'], [-J, lam I]]
+        Sp = np.block([
+            [lam * np.eye(n) + inact[:, None] * Hxx, inact[:, None] * J.T],
+            [-J, lam * np.eye(m)],
+        ])
+        Sp_scale = np.block([
+            [lam * np.eye(n) + H_scale, aJ.T],
+            [aJ, lam * np.eye(m)],
+        ])
+        gotSp = dense(sfunc.deriv_at(it, rho, act.copy()))
+        if not close(gotSp, Sp, Sp_scale):
+            k = np.unravel_index(np.argmax(np.abs(gotSp - Sp)), Sp.shape)
+            return V("scaled_deriv_at", f"scaled F'[{k}]: got {gotSp[k]!r} reference {Sp[k]!r} (active={act.tolist()})")
+        # asking for derivatives must not change what the iterate reports afterwards
+        if not close(dense(it.aug_lag_deriv_xy()), J, aJ):
+            return V("jacobian-changed-by-deriv", "iterate.aug_lag_deriv_xy() differs from the Jacobian after deriv_at() calls")
+        if not close(it.aug_lag_deriv_x(rho), dx, dx_scale):
+            return V("gradient-changed-by-deriv", "iterate.aug_lag_deriv_x() changed after deriv_at() calls")
     # ---- keep_rows --------------------------------------------------------------------------
     import scipy.sparse as sps
 
